@@ -12,6 +12,7 @@ Unit template (.vt): ordinary Verus text plus directive lines starting with `//@
   //@ sig: <old> => <new>                         (R3: literal replacement inside the signature only)
   //@ letty: <old> => <new>                       (R3: literal replacement inside `let` type annotations only)
   //@ map: <old> => <new> ## <reason>             (R8: logged expression desugaring, max 3 per extract)
+  //@ map-each: <old> => <new> ## <reason>        (R8c: every occurrence, possibly none, rewritten alike; max 1 per extract)
   //@ contract:                                   (R7) following `//@| text` lines go between signature and body
   //@ loop <k>:                                   (R7) `//@| text` lines go before the body brace of the k-th loop
   //@ loop <k> iter: <name>                       (R7) `for p in e` -> `for p in name: e`
@@ -550,6 +551,7 @@ class Extract:
         self.sig = []
         self.letty = []
         self.maps = []
+        self.maps_each = []
         self.contract = []
         self.loops = {}
         self.loop_iter = {}
@@ -644,6 +646,12 @@ def parse_template(path):
                 if not why.strip():
                     raise Undecided('%s: map without reason: %r' % (origin, ln))
                 cur.maps.append((a.strip(), b.strip(), why.strip()))
+            elif key == 'map-each':
+                body, _, why = val.partition(' ## ')
+                a, b = body.split(' => ')
+                if not why.strip():
+                    raise Undecided('%s: map-each without reason: %r' % (origin, ln))
+                cur.maps_each.append((a.strip(), b.strip(), why.strip()))
             elif key == 'contract':
                 target = cur.contract
             elif key.startswith('loop-expect '):
@@ -767,6 +775,12 @@ def render_extract(ex, vac=False, strip_proof=False):
         raise Undecided('R8: more than three expression maps requested')
     for a, b, why in ex.maps:
         body = apply_literal(body, a, b, 'map', log, 'R8')
+    if len(ex.maps_each) > 1:
+        raise Undecided('R8c: more than one map-each requested')
+    for a, b, why in ex.maps_each:
+        # R8c: every occurrence (possibly none) of an effect the verifier cannot express is rewritten the same way
+        log.append({'rule': 'R8c', 'replaced': a, 'with': b, 'n': body.count(a), 'why': why})
+        body = body.replace(a, b)
         log[-1]['reason'] = why
     for a, b in ex.letty:
         body = letty_replace(body, a, b, log)
